@@ -1,5 +1,6 @@
 pub mod hir;
 pub mod matcher;
 pub mod parse;
+pub mod rules;
 pub mod sample;
 pub mod transform;
